@@ -41,7 +41,7 @@ def run(ctx, rep):
         "tail untransformed; the clean-mode treatment of tail is the same code as that of text (sibling agreement); one unfiltered "
         "loop over the element attaches every non-comment child in order with the same flags; attributes are split on the Clark "
         "brace; the reserved xml namespace is translated to the xml: prefix")
-    rep.rules_run = ["R1", "R2", "R3", "R4", "R5"]
+    rep.rules_run = ["R1", "R2", "R3", "R4", "R5", "R6"]
     rep.assumptions += ["NOT decided: what lxml parses; what strip/split/the whitespace regex do to every string; import-export-import stability"]
     prog = ctx.prog
     w = ctx.world
@@ -191,6 +191,81 @@ def run(ctx, rep):
         if not ok:
             rep.add("R2", fi.qname, "clean-mode treatment of tail vs text", "the whitespace policy applied to tail differs from the one applied to "
                     "text (the two blocks are the same code up to e.text/node.content vs e.tail/node.tail)", fi.loc(n_if))
+    # ---- R6 the "keep blank-only text verbatim" test matches whole strings of spaces / tabs / non-breaking spaces only
+    import re as _re
+    try:
+        import re._parser as _sre
+        import re._constants as _src
+    except ImportError:  # pragma: no cover
+        import sre_parse as _sre
+        import sre_constants as _src
+    allowed = {0x20, 0xA0, 0x09}
+
+    def pattern_of(call):
+        """(pattern string, method) for re.search/match/fullmatch(pat, s) or COMPILED.search/match/fullmatch(s)"""
+        f = call.func
+        if not isinstance(f, ast.Attribute) or f.attr not in ("search", "match", "fullmatch"):
+            return None
+        r = prog.resolve_name_expr(fi.module, f.value) if isinstance(f.value, (ast.Name, ast.Attribute)) else None
+        if r and r[0] == "external" and r[1] == "re" and call.args:
+            pat = prog.const(fi.module, call.args[0])
+            return (pat, f.attr) if isinstance(pat, str) else None
+        if r and r[0] == "const":
+            c = r[1].consts.get(r[2])
+            if isinstance(c, ast.Call) and isinstance(c.func, ast.Attribute) and c.func.attr == "compile" and c.args:
+                pat = prog.const(r[1], c.args[0])
+                return (pat, f.attr) if isinstance(pat, str) else None
+        return None
+
+    def whole_blank(pat, method):
+        try:
+            items = list(_sre.parse(pat))
+        except Exception:
+            return False
+        begin = end = False
+        if items and items[0][0] == _src.AT and items[0][1] in (_src.AT_BEGINNING, _src.AT_BEGINNING_STRING):
+            begin = True
+            items = items[1:]
+        if items and items[-1][0] == _src.AT and items[-1][1] in (_src.AT_END, _src.AT_END_STRING):
+            end = True
+            items = items[:-1]
+        if len(items) != 1 or items[0][0] not in (_src.MAX_REPEAT, _src.MIN_REPEAT):
+            return False
+        lo, hi, sub = items[0][1]
+        if lo < 1 or hi != _src.MAXREPEAT or len(sub) != 1:
+            return False
+        op, arg = sub[0]
+        chars = set()
+        if op == _src.LITERAL:
+            chars = {arg}
+        elif op == _src.IN:
+            for (o2, a2) in arg:
+                if o2 == _src.LITERAL:
+                    chars.add(a2)
+                else:
+                    return False
+        else:
+            return False
+        if not chars <= allowed:
+            return False
+        return {"search": begin and end, "match": end, "fullmatch": True}[method]
+
+    keepers = 0
+    for n in ast.walk(ast.Module(body=cln, type_ignores=[])):
+        if isinstance(n, ast.If) and len(n.body) == 1 and isinstance(n.body[0], ast.Assign) and isinstance(n.body[0].value, ast.Attribute) \
+                and isinstance(n.body[0].value.value, ast.Name) and n.body[0].value.value.id == ep and n.body[0].value.attr in ("text", "tail"):
+            calls_ = [c for c in ast.walk(n.test) if isinstance(c, ast.Call) and pattern_of(c)]
+            if not calls_:
+                continue
+            keepers += 1
+            pat, method = pattern_of(calls_[0])
+            ok = whole_blank(pat, method)
+            rep.oblige(("R6", norm(n.test)[:60]), ok, sample={"keep-verbatim test": norm(n.test)[:70], "pattern": pat, "method": method})
+            if not ok:
+                rep.add("R6", fi.qname, n.test, f"clean mode keeps the element's {n.body[0].value.attr} verbatim whenever `{pat}` {method}es; it may do so only for "
+                        f"text consisting entirely of spaces, tabs and non-breaking spaces (anchored at both ends)", fi.loc(n))
+    rep.count("keep-verbatim tests", keepers)
+    rep.floor("keep-verbatim tests", 2)
     # ---- R3 children
     loops = [n for n in ast.walk(fi.node) if isinstance(n, ast.For) and isinstance(n.iter, ast.Name) and n.iter.id == ep]
     rep.count("child loops", len(loops))
